@@ -925,6 +925,12 @@ def run_c19(pid, tier):
                 continue
             tus = [("on", True, "g++", [a, c])]
             samejobs.append((tus, pool.submit(H.check_program, b, tus, False)))
+    # class 2d: the snippets instantiated with int edge weights (the second weight type the properties name), syntax only
+    intjobs = []
+    for h in hs:
+        if h in H.SNIP and "vg_t" in H.SNIP[h]:
+            tus = [("on", "int", "g++", [h])]
+            intjobs.append((tus, pool.submit(H.check_program, b, tus, False)))
     for tus, f in jobs:
         evaluations += 1
         classes["singleton-" + tus[0][0]] = classes.get("singleton-" + tus[0][0], 0) + 1
@@ -970,6 +976,11 @@ def run_c19(pid, tier):
         nontrivial.add(H.program_text(tus))
         if not ok:
             record(("C19/%s | %s/off/does-not-link" % (tus[0][3][0].replace("parmcb/", ""), tus[1][3][0].replace("parmcb/", "")), H.first_error(err)), tus)
+    for tus, f in intjobs:
+        evaluations += 1
+        classes["instantiation-int-weights"] = classes.get("instantiation-int-weights", 0) + 1
+        nontrivial.add(H.program_text(tus))
+        record(f.result(), tus)
     for tus, f in samejobs:
         evaluations += 1
         classes["two-headers-one-tu"] = classes.get("two-headers-one-tu", 0) + 1
